@@ -160,6 +160,47 @@ def with_sg_model(ctx, pid, events, rejects, light=False):
     return events, rejects
 
 
+# ----------------------------------------------------------------------------- KeyModel: the COSE_Key life cycle as a state machine
+KEY_PROPS = ["K_Permitted", "K_OwnSignatures", "K_ReadOnly", "K_Atomic"]
+KEY_INVS = ["K_RoundTrip"]
+KEY_ALL = '{"EC2", "OKP"}'
+
+
+def key_stage(ctx, pid):
+    """KeyModel (owner: C15): model checking, behaviours replayed on a real Key with real signatures, trace validation"""
+    if pid == "C15":
+        mc(ctx, "KeyModel", cfgtext(invariants=KEY_INVS, props=KEY_PROPS, constants=dict(MaxHist=0, Record="FALSE", Ktys='{"EC2"}' if ctx.quick() else KEY_ALL), extra="VIEW View\n"),
+           timeout=3000, heap="8g")
+    n, depth = (1500, 10) if ctx.quick() else (20000, 14)
+    consts = dict(Record="TRUE", Ktys=KEY_ALL)
+    cases = []
+    for pfx, plen in ((0, 0), (1, 3), (2, 2), (3, 2)):
+        cases += gen(ctx, "Gen_Key", cfgtext(spec="GSpec", invariants=["Emit"], constants=dict(MaxHist=plen + (2 if ctx.quick() else 3), PrefixId=pfx, **consts)), timeout=1200, heap="8g")
+    cases += gen(ctx, "Gen_Key", cfgtext(invariants=["Emit"], constants=dict(MaxHist=depth, PrefixId=0, **consts)), simulate=max(1, n // 50), depth=depth + 2, seed=ctx.seed, timeout=1200, heap="8g")
+    events = harness(ctx, ["exec", "memflow"], cases)
+    jc = "".join("CONSTANT %s = %s\n" % kv for kv in dict(MaxHist=0, Record="FALSE", Ktys=KEY_ALL).items())
+    rej = judge(ctx, "Trace_Key", events, per_shard=600, extra_cfg=jc)
+    mine, other = {}, 0
+    for idx, reasons in rej.items():
+        r = [x for x in reasons if x.startswith(pid + ":") or x.startswith("infra-")]
+        other += len(reasons) - len(r)
+        if r:
+            mine[idx] = r
+    ctx.notes["keymodel_behaviours_replayed"] = len(events)
+    ctx.notes["keymodel_rejections_attributed_to_other_properties"] = other
+    return events, mine
+
+
+def with_key_model(ctx, pid, events, rejects):
+    mev, mrej = key_stage(ctx, pid)
+    base = len(events)
+    events = events + mev
+    rejects = dict(rejects)
+    for idx, r in mrej.items():
+        rejects[base + idx] = r
+    return events, rejects
+
+
 def with_cs_model(ctx, pid, events, rejects, light=False):
     mev, mrej = cs_stage(ctx, pid, light)
     base = len(events)
@@ -591,9 +632,10 @@ def c15(ctx):
     cases = keydec_cases(ctx)
     events = harness(ctx, ["exec", "keydec"], cases)
     rejects = judge(ctx, "Trace_C15", events)
+    events, rejects = with_key_model(ctx, "C15", events, rejects)
     return report(ctx, events, rejects,
-                  nontrivial=lambda e: e["acc"],
-                  key=lambda e: tuple(e["bytes"]),
+                  nontrivial=lambda e: "acts" in e or e["acc"],
+                  key=lambda e: json.dumps(e["acts"]) if "acts" in e else tuple(e["bytes"]),
                   rule="TLC enumerates COSE_Key maps: 7 valid base keys (EC2 P-256/384/521 private/public, OKP Ed25519 private/public, symmetric, custom kty) and every "
                        "change of one/two (thorough: three) of the dimensions kty, crv, alg, key_ops, x, y, d, extra labels to every other value kind and length "
                        "class (0, size-1, size, size+1), plus every structural CBOR mutation of each base tree; Key.UnmarshalCBOR and everything reachable from an "
@@ -609,11 +651,12 @@ def c14(ctx):
     cases += harness(ctx, ["drive", "keyrt"])
     events = harness(ctx, ["exec", "keyrt"], cases)
     rejects = judge(ctx, "Trace_C14", events)
+    events, rejects = with_key_model(ctx, "C14", events, rejects)
     short = lambda e: e["curve"] != "ed" and e["stage"] == "done" and (len(e["x"]) < {"p256": 32, "p384": 48, "p521": 66}[e["curve"]] or len(e["y"]) < {"p256": 32, "p384": 48, "p521": 66}[e["curve"]])
     ctx.notes["keys_with_short_coordinate"] = sum(1 for e in events if short(e))
     return report(ctx, events, rejects,
-                  nontrivial=lambda e: e["stage"] == "done",
-                  key=lambda e: (e["curve"], tuple(e["d"]), json.dumps(e["extras"], sort_keys=True)),
+                  nontrivial=lambda e: "acts" in e or e["stage"] == "done",
+                  key=lambda e: json.dumps(e["acts"]) if "acts" in e else (e["curve"], tuple(e["d"]), json.dumps(e["extras"], sort_keys=True)),
                   rule="TLC checks the conversion design (Go big.Int trims leading zeros, encoder pads x/y to the field size, decoder reads back) for every "
                        "coordinate value of a 2-byte toy field, and enumerates every fixture key (3 curves x leading-zero classes of x, y, d incl. 1- and 2-byte "
                        "short coordinates and tiny scalars, Ed25519) x optional parameters; a seeded driver adds random and small scalars (about 1 in 128 keys has "
@@ -858,7 +901,9 @@ def replay(ctx, path):
     prefix = None
     if "acts" in ev:                       # a behaviour of one of the life-cycle models
         op, prefix = "memflow", pid + ":"
-        if "sg" in ev:
+        if "keymodel" in ev:
+            module, kc = "Trace_Key", dict(MaxHist=0, Record="FALSE", Ktys=KEY_ALL)
+        elif "sg" in ev:
             module, kc = "Trace_Sg", dict(MaxHist=0, Record="FALSE", Scope='"all"', MaxLevel=0, **SG_CONSTS)
         elif "okind" in ev:
             module, kc = "Trace_Model", dict(MaxHist=0, Record="FALSE", KidVals="{0, 1}", **dict(MODEL_CONSTS, ObjKind='"%s"' % ev["okind"]))
